@@ -124,46 +124,59 @@ def container_rule(ctx, p):
 
 
 def project_rule(ctx, p):
+    """decided on the decision table of the wrapper (sa/paths.py): every returning path with the atomic conditions that hold on it and the value it returns, locals substituted"""
     rule = "C17.project"
     w = nested(p, f"{D}.project_grid", "project_grid")
-    # centre / angle taken from the profile when it has them (`is not None`, never truthiness: an angle of exactly 0.0 is an angle)
-    for attr, assigned in (("centre", "obj.centre"), ("angle", "obj.angle + 90.0")):
-        asg = [n for n in w.body_nodes() if isinstance(n, ast.Assign) and norm_text(n.targets[0]) == attr and norm_text(n.value) == assigned]
-        ok = len(asg) == 1
-        det = ""
-        if ok:
-            tests = wire.path_conds(w, asg[0])
-            det = str(tests)
-            ok = all(t for _, t in tests) and {x for x, _ in tests} <= {f"hasattr(obj, '{attr}')", f"obj.{attr} is not None", f"getattr(obj, '{attr}', None) is not None"} and \
-                any(x.endswith("is not None") for x, _ in tests)
-        ctx.ob(rule, f"{w.key}:{attr}", ok, where=w, node=asg[0] if asg else w.node, construct=det,
-               message=f"the profile's {attr} must be used whenever it exists and is not None (a truthiness test would discard {attr} = 0)")
-    dflt = {norm_text(n.targets[0]): norm_text(n.value) for n in w.node.body if isinstance(n, ast.Assign)}
-    ctx.ob(rule, f"{w.key}:defaults", dflt.get("centre") == "(0.0, 0.0)" and dflt.get("angle") == "0.0", where=w, node=w.node, construct=str(dflt), message="defaults: centre (0.0, 0.0), angle 0.0")
-    # per input type
-    by_type = {}
-    for n in w.body_nodes():
-        if isinstance(n, ast.If) and norm_text(n.test).startswith("isinstance(grid, "):
-            by_type[norm_text(n.test)[len("isinstance(grid, "):-1]] = n
-    ctx.ob(rule, f"{w.key}:types", set(by_type) == {"Grid2D", "Grid2DIrregular", "Grid1D"}, where=w, node=w.node, construct=str(sorted(by_type)), message="project_grid must handle exactly Grid2D, Grid2DIrregular and Grid1D")
-    for ty, proj_want in (("Grid2D", "grid.grid_2d_radial_projected_from(centre=centre, angle=angle)"), ("Grid1D", "grid.grid_2d_radial_projected_from(angle=angle)")):
-        node = by_type.get(ty)
-        if node is None:
+    PS = paths.path_summaries(w, project=p)
+    if PS is None:
+        ctx.ob(rule, w.key, None, message="too many paths through the project_grid wrapper")
+        return
+    rets = paths.returns(PS)
+    res = {k: [] for k in ("centre", "angle", "defaults", "types", "Grid2D", "Grid1D", "Grid2DIrregular")}
+    kinds = ("Grid2D", "Grid2DIrregular", "Grid1D")
+    seen_types = set()
+    for q in rets:
+        # which attribute of the profile is available on this path: only `hasattr` and `is not None` tests may decide it (a truthiness test would discard 0)
+        exp = {}
+        for attr, used, dflt in (("centre", "obj.centre", "(0.0,0.0)"), ("angle", "obj.angle+90.0", "0.0")):
+            has = q.holds(f"hasattr(obj, '{attr}')")
+            notnone = q.holds(f"obj.{attr} is not None")
+            ga = q.holds(f"getattr(obj, '{attr}', None) is not None")
+            avail = (has is True and notnone is True) or ga is True
+            decided = avail or has is False or notnone is False or ga is False
+            exp[attr] = used if avail else dflt
+            truthy = [t for t, _ in q.conds if t in (f"obj.{attr}", f"getattr(obj, '{attr}', None)")]
+            res[attr].append((decided and not truthy, q, f"{attr}: hasattr={has} not-None={notnone}" + (" (truthiness test)" if truthy else "")))
+        ty = [k for k in kinds if q.holds(f"isinstance(grid, {k})") is True]
+        ty = ty[0] if len(ty) == 1 and all(q.holds(f"isinstance(grid, {k})") is False for k in kinds[:kinds.index(ty[0])]) else None
+        if ty is None:
+            res["types"].append((False, q, str(q.conds)[:120]))
             continue
-        stm = node.body
-        asg = [s for s in stm if isinstance(s, ast.Assign)]
-        ret = [s for s in stm if isinstance(s, ast.Return)]
-        ok = len(asg) == 2 and len(ret) == 1 and norm_text(asg[0].value) == canon_src(proj_want)
-        if ok:
-            pj, res = norm_text(asg[0].targets[0]), norm_text(asg[1].targets[0])
-            ok = norm_text(asg[1].value) == f"func(obj, {pj}, *args, **kwargs)" and norm_text(ret[0].value) == canon_src(f"Array1D.no_mask(values={res}, pixel_scales=grid.pixel_scale)")
-        ctx.ob(rule, f"{w.key}:{ty}", ok, where=w, node=node, construct="; ".join(norm_text(s)[:90] for s in stm),
-               message="the function must be evaluated on the radially projected grid and its result wrapped, untouched, in an Array1D with the grid's pixel scale")
-    node = by_type.get("Grid2DIrregular")
-    if node is not None:
-        txt = [norm_text(s) for s in ast.walk(node) if isinstance(s, (ast.Assign, ast.Return))]
-        ok = "result = func(obj, grid, *args, **kwargs)" in txt and "return ArrayIrregular(values=result)" in txt and "return Grid2DIrregular(values=result)" in txt
-        ctx.ob(rule, f"{w.key}:Grid2DIrregular", ok, where=w, node=node, construct=str(txt)[:200], message="an irregular grid is evaluated as it is and wrapped in the irregular counterpart")
+        seen_types.add(ty)
+        v = q.value
+        F_plain = "func(obj,grid,*args,**kwargs)"
+        if ty in ("Grid2D", "Grid1D"):
+            proj = f"grid.grid_2d_radial_projected_from(angle={exp['angle']},centre={exp['centre']})" if ty == "Grid2D" else f"grid.grid_2d_radial_projected_from(angle={exp['angle']})"
+            want = f"Array1D.no_mask(pixel_scales=grid.pixel_scale,values=func(obj,{proj},*args,**kwargs))"
+            ok_ = q.text == want
+            res[ty].append((ok_, q, q.text[:150]))
+            # the defaults are what is used when the attribute is not available
+            res["defaults"].append((ok_ or not ("0.0" in want), q, q.text[:150]))
+        else:
+            ok_ = q.text in (f"ArrayIrregular(values={F_plain})", f"Grid2DIrregular(values={F_plain})")
+            res[ty].append((ok_, q, q.text[:150]))
+    res["types"].append((seen_types == set(kinds), None, str(sorted(seen_types))))
+    msgs = {"centre": "the profile's centre must be used whenever it exists and is not None (a truthiness test would discard centre = 0)",
+            "angle": "the profile's angle must be used whenever it exists and is not None (a truthiness test would discard angle = 0)",
+            "defaults": "defaults: centre (0.0, 0.0), angle 0.0",
+            "types": "project_grid must handle exactly Grid2D, Grid2DIrregular and Grid1D",
+            "Grid2D": "the function must be evaluated on the radially projected grid and its result wrapped, untouched, in an Array1D with the grid's pixel scale",
+            "Grid1D": "the function must be evaluated on the radially projected grid and its result wrapped, untouched, in an Array1D with the grid's pixel scale",
+            "Grid2DIrregular": "an irregular grid is evaluated as it is and wrapped in the irregular counterpart"}
+    for name, items in res.items():
+        badi = [x for x in items if not x[0]]
+        ctx.ob(rule, f"{w.key}:{name}", bool(items) and not badi, where=w, node=(badi[0][1].node if badi and badi[0][1] is not None else None) or w.node,
+               construct=(badi[0][2] if badi else (items[0][2] if items else "no path")), message=msgs[name])
 
 
 def radial_rule(ctx, p):
@@ -249,26 +262,28 @@ def radial_rule(ctx, p):
 
 
 def transform_rule(ctx, p):
+    """decided on the wrapper's returning paths (sa/paths.py): already transformed -> func(obj, grid, ...) as it is; otherwise func on the grid transformed to the profile's frame, once"""
     rule = "C17.transform"
     w = nested(p, f"{D}.transform", "transform")
-    calls = [c for c in w.calls() if isinstance(c.func, ast.Name) and c.func.id == "func"]
-    ok = len(calls) == 2
+    PS = paths.returns(paths.path_summaries(w, project=p) or [])
+    ok = bool(PS)
     det = []
-    for c in calls:
-        br = wire.path_conds(w, c)   # enclosing branches and earlier guard clauses alike
-        a = [norm_text(x) for x in c.args[:2]]
-        det.append((a, br))
-        if br == [("kwargs.get('is_transformed')", False)]:
-            ok = ok and a[0] == "obj"
-            src = [norm_text(n.value) for n in w.body_nodes() if isinstance(n, ast.Assign) and norm_text(n.targets[0]) == a[1]]
-            ok = ok and len(src) == 1 and src[0].startswith("obj.transformed_to_reference_frame_grid_from(grid")
-        elif br == [("kwargs.get('is_transformed')", True)]:
-            ok = ok and a == ["obj", "grid"]
+    seen = set()
+    for q in PS:
+        flag = q.holds("kwargs.get('is_transformed')")
+        seen.add(flag)
+        v = q.value
+        okq = isinstance(v, ast.Call) and paths.ptext(v.func) == "func" and len(v.args) >= 2 and paths.ptext(v.args[0]) == "obj" and len(q.conds) == 1
+        g = paths.ptext(v.args[1]) if okq else ""
+        det.append((flag, q.text[:110]))
+        if flag is True:
+            okq = okq and g == "grid"
+        elif flag is False:
+            okq = okq and g.startswith("obj.transformed_to_reference_frame_grid_from(grid") and g.count("transformed_to_reference_frame_grid_from") == 1
         else:
-            ok = False
-    rets = wire.returns_of(w)
-    ok = ok and len(rets) == 1 and norm_text(rets[0].value) == "result"
-    ctx.ob(rule, w.key, ok, where=w, node=w.node, construct=str(det), message="the grid must be transformed to the profile frame exactly once (not again when already transformed) and the function's result returned untouched")
+            okq = False
+        ok = ok and okq
+    ctx.ob(rule, w.key, ok and seen == {True, False}, where=w, node=w.node, construct=str(det)[:300], message="the grid must be transformed to the profile frame exactly once (not again when already transformed) and the function's result returned untouched")
 
 
 def run(ctx):
